@@ -120,11 +120,15 @@ def show(j):
 
 F = lambda x: {'$f': repr(float(x))}  # noqa
 VALS_QUICK = [0, F(0.0), False, '', 1, True, 2, F(2.5), -3, 'x', 'y', 'text', '7', {'$dt': [2020, 1, 1, 0, 0, 0, 0]},
-              F(123456789.25), 10 ** 15, '#N/A', F(1.5)]
-VALS_MORE = [BLANK, 'L' * 60, {'$dt': [2051, 1, 1, 0, 0, 0, 0]}, {'$dt': [2024, 2, 29, 12, 0, 0, 0]}, F(-0.0), F(1e-9), 'X', '>1', 3,
+              F(123456789.25), 10 ** 15, '#N/A', F(1.5), 'L' * 60, {'$dt': [2051, 1, 1, 0, 0, 0, 0]}]
+VALS_MORE = [BLANK, {'$dt': [2024, 2, 29, 12, 0, 0, 0]}, F(-0.0), F(1e-9), 'X', '>1', 3,
              F(2.0), 'z']
 FALSY = [0, F(0.0), False, '']
 NUMS_EXACT = [0, 1, 2, -3, 7, 10 ** 15, F(0.5), F(1.5), F(2.5), F(-0.25), F(0.0)]
+
+
+def is_integral_float(ev):
+    return isinstance(ev, dict) and '$f' in ev and float(ev['$f']) == int(float(ev['$f']))
 
 
 def is_falsy(ev):
@@ -511,9 +515,10 @@ def run_history(env, hist, probes=None, want_trace=False):
         if via == 'get_sheet':
             grids = {}
             for s in range(len(titles)):
-                sz = ex._executed_instance.get_sheets_size()[s]
+                sz = ex.get_executed_class().get_sheets_size()[s]
                 if sz.get('last_row', 0) * sz.get('last_column', 0) <= 4000:
                     grids[s] = lib.call_catch(ex.get_sheet, titles[s] if si % 2 else s)
+        step_mm = []
         for pr in probes:
             e, in_slice = exp[pr]
             if not in_slice and pr not in edits:
@@ -538,8 +543,14 @@ def run_history(env, hist, probes=None, want_trace=False):
                 kind = 'unrelated_cell_changed'
                 e = base
             if kind:
-                res['mismatches'].append({'step': si, 'probe': list(pr), 'kind': kind, 'got': got, 'exp': e,
-                                          'edits': sorted([list(k), v] for k, v in edits.items())})
+                step_mm.append({'step': si, 'probe': list(pr), 'kind': kind, 'got': got, 'exp': e,
+                                'edits': sorted([list(k), v] for k, v in edits.items())})
+        # a wrong cell makes its readers wrong: keep the roots only
+        bad = {tuple(m['probe']) for m in step_mm}
+        for m in step_mm:
+            pr = tuple(m['probe'])
+            if pr in edits or not any(o != pr and o not in edits and book.depends(pr, o, tuple(edits)) for o in bad):
+                res['mismatches'].append(m)
     return res
 
 
@@ -551,8 +562,6 @@ def key_of(book, mm, entry=False):
     if pr in edits:
         return f'C04.direct_read.{book.klass(pr)}'
     infl = sorted({book.klass(t) for t in edits if book.depends(pr, t, ())}) or sorted({book.klass(t) for t in edits})
-    if any(isinstance(v, dict) and '$f' in v and float(v['$f']) == int(float(v['$f'])) for v in edits.values()):
-        infl.append('integral_float_value')
     if mm['kind'] == 'unrelated_cell_changed':
         return f'C04.unrelated.{book.shape(pr)}.after_override_of_{"+".join(infl)}'
     return f'C04.dependent.{book.shape(pr)}.reads_{"+".join(infl)}' + ('.entry_point' if entry else '')
@@ -575,7 +584,7 @@ def describe(book, hist, mm):
 
 def _job(job):
     """top-level pool worker: one workbook + translation mode, many histories"""
-    t0 = time.time()
+    t0 = time.process_time()
     out = {'check': job['check'], 'evals': 0, 'nontrivial': 0, 'fails': [], 'samples': [], 'histories': 0, 'skipped': 0,
            'fresh': 0}
     with lib.scratch() as d:
@@ -586,7 +595,12 @@ def _job(job):
             return out
         seen = set()
         for hist in job['histories']:
-            r = run_history(env, hist)
+            try:
+                r = run_history(env, hist)
+            except Exception as e:  # noqa  (a crash inside the library outside the guarded calls)
+                r = {'evals': 1, 'nontrivial': 0, 'trace': [],
+                     'mismatches': [{'step': -1, 'probe': None, 'kind': f'crash_{type(e).__name__}', 'got': {'$exc': type(e).__name__},
+                                     'exp': None, 'edits': []}]}
             out['histories'] += 1
             out['evals'] += r['evals']
             out['nontrivial'] += r['nontrivial']
@@ -605,7 +619,7 @@ def _job(job):
                 out['samples'].append({'history': describe(env.book, hist, {'probe': None, 'kind': f'{r["evals"]} cells compared',
                                                                             'got': None, 'exp': r['nontrivial']})})
         out['fresh'] = env.n_fresh
-    out['seconds'] = time.time() - t0
+    out['seconds'] = time.process_time() - t0
     return out
 
 
@@ -675,6 +689,19 @@ def _shrink(fail):
             m2, t2, i2 = _check_payload(trial)
             if m2 is not None:
                 cur, text, key0 = trial, t2, i2[1]
+    # integral floats (2.0, 0.0): does the mismatch need them?  if not, the witness uses the int
+    for st in cur['history']['steps']:
+        for ent in st.get('cells', []):
+            if is_integral_float(ent[3]):
+                keep = ent[3]
+                ent[3] = int(float(keep['$f']))
+                m2, t2, i2 = _check_payload(cur)
+                if m2 is not None:
+                    text, key0 = t2, i2[1]
+                else:
+                    ent[3] = keep
+    if any(is_integral_float(ent[3]) for st in cur['history']['steps'] for ent in st.get('cells', [])):
+        key0 = 'C04.integral_float_constant.' + key0.split('.', 2)[2].split('.reads_')[0]
     return {'key': key0, 'what': text, 'replay': cur}
 
 
@@ -824,7 +851,7 @@ def rewrite_histories(book, target, vals, rng, dense):
         pairs = rng.sample(pairs, min(len(pairs), 40))
     for n, (a, b) in enumerate(pairs):
         s1, s2 = STYLES[n % 4], STYLES[(n // 4 + 1) % 4]
-        shape = n % 5
+        shape = n % 6
         if shape == 0:      # override -> read dependants -> override the same cell again -> read
             out.append(H([SET(T, s1, (target, a)), GET, SET(T, s2, (target, b)), GET]))
         elif shape == 1:    # two batches, no query in between
@@ -839,6 +866,8 @@ def rewrite_histories(book, target, vals, rng, dense):
             y = SET(T, s1, (target, b))
             y['cells'][0].append('o1')
             out.append(H([x, GET, y, GET]))
+        elif shape == 4:    # query first, then two writes separated by an empty batch
+            out.append(H([GET, SET(T, s1, (target, a)), GET, {'op': 'set', 'cells': []}, GET, SET(T, s2, (target, b)), GET]))
         else:               # three writes, back to the first value in the middle
             out.append(H([SET(T, s1, (target, b)), SET(T, s2, (target, a)), GET, SET(T, s1, (target, b)), GET], qstyle='a1'))
     return out
@@ -847,7 +876,11 @@ def rewrite_histories(book, target, vals, rng, dense):
 def random_history(book, rng, vals, targets, max_batches=4, max_cells=3):
     T = book.titles
     steps, used = [], []
+    if rng.random() < 0.3:
+        steps.append(GET)                                     # a query before the first override
     for b in range(rng.randint(1, max_batches)):
+        if rng.random() < 0.08:
+            steps.append({'op': 'set', 'cells': []})          # an empty batch is a set-cells call too
         pairs = []
         for _ in range(rng.randint(1, max_cells)):
             t = rng.choice(used) if used and rng.random() < 0.45 else rng.choice(targets)
@@ -886,7 +919,7 @@ CHECKS = {
     'beyond_used_range': 'single override of a cell beyond the stored rows/columns (first row/column past the end, row 150, 200, '
                          '1500, column AAA), read directly, through SUM(A:A), or by nothing',
     'last_write_wins': 'the same cell written repeatedly (two batches with/without a query between, twice in one batch, re-used '
-                       'Cell object, three writes)',
+                       'Cell object, query first + empty batch between, three writes)',
     'addressing': 'one history spelled in six ways (index/title x numbers/letters, mixed, lower-case letters) and queried in two',
     'random_histories': 'random histories on the core workbook',
     'random_workbooks': 'random histories on workbooks of the generator, whole-file translation',
@@ -940,7 +973,7 @@ def build_jobs(tier, seed):
     jobs.append({'check': 'views', 'wb': wb, 'histories': vh[len(vh) // 2:], 'group': 'get_sheet'})
     # random histories on the core workbook
     core_targets = [book.parse(a) for a, _ in CORE_TARGETS] + list(book.cells)
-    n_rand = 3000 if thorough else 160
+    n_rand = 2000 if thorough else 160
     per = 25 if thorough else 10
     for i in range(0, n_rand, per):
         jobs.append({'check': 'random_histories', 'wb': wb, 'group': f'r{i}',
@@ -973,7 +1006,7 @@ def build_jobs(tier, seed):
         jobs.append({'check': 'entry_point', 'wb': wb, 'entry': [T[cell[0]], col_letters(cell[1]), str(cell[2] + 1)],
                      'histories': hs, 'group': a1(T, cell)})
     # generated workbooks
-    n_wb = 700 if thorough else 44
+    n_wb = 480 if thorough else 44
     for i in range(n_wb):
         g = gen_workbook(rng)
         gb = Book(g)
@@ -996,7 +1029,7 @@ def build_jobs(tier, seed):
 def hashseed_histories(book, vals, rng, n):
     T = book.titles
     out = []
-    hv = [v for v in vals if not (isinstance(v, dict) and '$f' in v and float(v['$f']) == int(float(v['$f'])))]
+    hv = [v for v in vals if not is_integral_float(v)]
     cells = [book.parse(a) for a in ('S!A1', 'S!D3', 'S!A3', 'S!H200', 'Data!A1', 'S!D2', 'S!C1')]
     for i in range(n):
         steps = []
@@ -1076,7 +1109,7 @@ def run(tier='quick', seed=0):
                              f'Data!A3, Data!E7) x {nvals} values',
         'last_write_wins': f'25 targets x ordered pairs of distinct values out of {nvals if thorough else 12} '
                            f'({"all pairs" if thorough else "all pairs for constants and raising formulas, 40 sampled pairs otherwise"}), '
-                           '5 history shapes in rotation',
+                           '6 history shapes in rotation',
         'addressing': '6 spellings of set_cells x 4 spellings of get_cell x one 3-batch history (9 overrides, 2 sheets, column AAA/AB, '
                       'row 150)',
         'random_histories': f'{per_check["random_histories"]["histories"]} seeded histories, <= {6 if thorough else 4} batches x <= '
